@@ -52,3 +52,8 @@ claim("C12", "static analysis: guard/ordering dominance on the broadcast paths, 
   "Decides that in BroadcastMessage/rebroadcastMessage nothing leaves the node when the filter refuses, filter ≺ WAL append ≺ publish, and the appended message is the published one; that the consensus topic has no other publisher; that start replays every WAL entry into the filter before the runner exists; the filter's must-rows (past instance refused without state change, conflicting local signature refused, stored signatures never overwritten, newer instance resets before lookup, slot = sender/round/phase); that WAL entries carry the whole message with epoch = instance and are distinct objects on read-back; and that the purge bound instance − 5 cannot wrap (C12.R1–R7). Structural necessary conditions; delivery and storage faults are not decided.",
   "AS1 WAL durability (C11); trusts go/types, go/ssa, checker/c12.go.",
   "DESIGN.md §4 C12")
+
+claim("C04", "static analysis: guard dominance (SCCP) with both directions of each equality, loop-carried state provenance via SSA phis, struct-literal payload comparison, comparator decision table on certs",
+  "Decides that the per-certificate advance in ValidateFinalityCertificates is unreachable when any check fails, that the loop-carried base/table/chain have the right provenance (base := head of this certificate's chain, signature verified against the table in force), that every error return reports the valid prefix, that the signature check rejects out-of-range and zero-power signers, tests a strong quorum of the same table and verifies the aggregate over exactly the DECIDE payload, that delta application rejects each malformed class (incl. duplicate ids) before touching a fresh map, that MakePowerTableDiff sorts by participant and emits no zero delta, and the canonical order table (C04.R1–R7). Structural necessary conditions; apply(make(a,b)) = b as an identity over all values is not decided.",
+  "AS2 cryptography sound; trusts go/types, go/ssa, checker/c04.go.",
+  "DESIGN.md §4 C04")
